@@ -222,3 +222,21 @@ Proof.
   destruct (footprint_of_inv c _ s i F I Hi) as (A & B & C).
   repeat split; auto. intros Hb. apply (map_only_when_full c _ s i I Hi Hb).
 Qed.
+
+(* ---------- C04 in admissible histories: the failed call returns null (it cannot stop) ---------- *)
+Theorem C04_null_main :
+  forall (c : cfg) (ops : list op) (o : op) (len : N) (e : env),
+    cfg_ok c = true -> policy_ok c (ops ++ [o]) -> api_ok c (ops ++ [o]) -> history_short (ops ++ [o]) ->
+    let s := run c ops in
+    map_len c s o = Some len -> op_env o = Some e -> env_ret e = 0 ->
+    st_of (step c s o) = s /\ res_of (step c s o) = RNull
+    /\ policy_calls (cbs_of (step c s o)) = [CMap len (if aligned c then sb c else 0) 0].
+Proof.
+  intros c ops o len e Hc Hp Ha Hs s Hm He E0. pose proof (cfg_ok_facts c Hc) as F.
+  destruct (prefix_inv c _ ops Hc Hp Ha Hs ltac:(eexists; reflexivity)) as [I _]. fold s in I.
+  assert (Hs' : N.of_nat (length ops) + 1 < 4294967296).
+  { unfold history_short in Hs. rewrite app_length, Nat2N.inj_add in Hs. cbn in Hs. lia. }
+  destruct (map_failure_transparent c s o len e Hc Hm He E0) as (A & B & C).
+  destruct (step_inv c F _ s I Hs' o (hist_ok_last _ c ops o Hp) (hist_ok_last _ c ops o Ha)) as [_ NS].
+  destruct B as [B|B]; [|congruence]. auto.
+Qed.
